@@ -402,6 +402,9 @@ func c06Patterns() []c06Pattern {
 		c06Re("[A-Z]oo"),      // upper-case letters in a class: case:auto is sensitive
 		c06Re("[a-z]oo"),
 		c06Re("fo+ +bar"),
+		// every regexp operator as the ONLY operator of a value (a value is a literal only when it has none)
+		c06Re("fo{2}"), c06Re("o{1,2} b"), c06Re("fo?o"), c06Re("f[o]o"), c06Re("fo*"), c06Re("(?i)FOO"),
+		c06Lit("x{2}"), c06Lit("{y}"), // braces as text
 	}
 }
 
